@@ -409,7 +409,7 @@ class MiniInterp:
         if isinstance(st, ast.For):
             src = self.ev(st.iter, env, fi)
             # iterators are pulled one element at a time: a loop that is left early leaves the rest in the iterator
-            it = src.lazy() if isinstance(src, LazyIter) else src.pull() if isinstance(src, _Iter) else self.iterate(src)
+            it = src.lazy() if isinstance(src, LazyIter) else src.pull() if isinstance(src, _Iter) else _live_list(src) if type(src) is list else self.iterate(src)
             broke = False
             try:
                 for x in it:
@@ -1378,7 +1378,7 @@ class MiniInterp:
             src = self.ev(g.iter, env2, fi)
             # a lazily produced source (os.walk, a generator function) is pulled one element at a time: what the inner clauses do
             # with an element (pruning the walked directory list) happens before the next one is produced
-            for x in (src.lazy() if isinstance(src, LazyIter) else src.pull() if isinstance(src, _Iter) else self.iterate(src)):
+            for x in (src.lazy() if isinstance(src, LazyIter) else src.pull() if isinstance(src, _Iter) else _live_list(src) if type(src) is list else self.iterate(src)):
                 self.tick()
                 self.assign(g.target, x, env2, fi)
                 if all(self.truth(self.ev(c, env2, fi)) for c in g.ifs):
@@ -1405,7 +1405,7 @@ class MiniInterp:
                     return
                 g = n.generators[i]
                 src = first if i == 0 else self.ev(g.iter, env2, fi)
-                for x in (src.lazy() if isinstance(src, LazyIter) else src.pull() if isinstance(src, _Iter) else self.iterate(src)):
+                for x in (src.lazy() if isinstance(src, LazyIter) else src.pull() if isinstance(src, _Iter) else _live_list(src) if type(src) is list else self.iterate(src)):
                     self.tick()
                     self.assign(g.target, x, env2, fi)
                     if all(self.truth(self.ev(c, env2, fi)) for c in g.ifs):
@@ -1526,7 +1526,10 @@ class MiniInterp:
                 m = obj.cls.find_method(attr)
                 if m is not None:
                     if m.is_property():
-                        return self.call(self.prj.func(m.qual, raw=True), [], {}, obj)
+                        v_ = self.call(self.prj.func(m.qual, raw=True), [], {}, obj)
+                        if any((attr_chain(d) or "").split(".")[-1] == "cached_property" for d in m.node.decorator_list):
+                            obj.fields[attr] = v_          # computed once per instance, then an ordinary attribute
+                        return v_
                     if m.is_classmethod():
                         return BoundFunc(m, T("class", obj.cls))
                     return BoundFunc(m, obj)
@@ -2586,6 +2589,14 @@ class MiniInterp:
                     return self.truth(a2[0]) if a2 else False
                 if name == "str" and a2 and as_pygt(a2[0]) is not None and not isinstance(a2[0], str):
                     return repr(as_pygt(a2[0]))
+                if name in ("str", "repr") and a2 and isinstance(a2[0], Sym) and a2[0].cls is not None:
+                    for mn in (("__str__", "__repr__") if name == "str" else ("__repr__",)):
+                        m_ = a2[0].cls.find_method(mn)
+                        if m_ is not None:
+                            r_ = self.call(self.prj.func(m_.qual, raw=True), [], {}, a2[0])
+                            if isinstance(r_, str):
+                                return r_
+                            break
                 if name == "str" and a2 and isinstance(a2[0], (Sym, Lin)):
                     return Sym("fstring", parts=[a2[0]])
                 if any(isinstance(x, (Sym, Lin)) for a in a2 for x in (a if isinstance(a, (list, tuple)) else [a])):
@@ -2785,6 +2796,14 @@ def _is_generator(fn_node) -> bool:
             continue
         todo.extend(ast.iter_child_nodes(n))
     return False
+
+
+def _live_list(lst):
+    """iteration over a list as Python does it: by position in the live list (elements removed or added meanwhile shift what comes next)"""
+    i = 0
+    while i < len(lst):
+        yield lst[i]
+        i += 1
 
 
 class CtxGen:
